@@ -1,7 +1,7 @@
 (* C14 — Get Vendor Defined Message Support walks the configured vendor ID sets: set i, then the selector of the
    next set, 0xFF after the last.  Property theorems only. *)
 Require Import Base Crc Bitfield Headers Encode Decode Process Ops Spec Judge.
-Require Import Hist StepsSimple StepsEncode DecodeChar ProcessChar StepsProcess.
+Require Import Hist StepsSimple StepsEncode DecodeChar ProcessChar StepsProcess Extra.
 Open Scope N_scope.
 
 (* (1) as the correspondence oracle states it: in every well-formed history on a validly configured context, an
@@ -27,6 +27,29 @@ Theorem C14_walk : forall ovf g c p buf v,
      ok ((MCtpControl, (11%nat, 1%nat)), Some (14 + length (enc_vendor_set v))%nat)).
 Proof. exact StepsProcess.C14_walk. Qed.
 
+(* (3) complete enumeration.  Extra.vendor_request r sel is the Get Vendor Defined Message Support request for set
+   sel from the endpoint with slave address and EID r to the endpoint at 0x10:
+   spec_packet r 0x10 0 [128; 6; sel].  It is a well-formed byte string the responder accepts ... *)
+Theorem C14_vendor_request_wellformed : forall r sel, r < 256 -> sel < 256 ->
+  bytes_ok (vendor_request r sel) /\ accepted_request (vendor_request r sel) = true /\
+  ctl_cmd (vendor_request r sel) = 6 /\ nth 11 (vendor_request r sel) 0 = sel /\ nth 6 (vendor_request r sel) 0 = r.
+Proof. exact vendor_request_wellformed. Qed.
+
+(* ... and Extra.walk r fuel ovf c sel is the requester's walk on the model: send vendor_request r sel into a
+   64-byte buffer, keep bytes 13 .. len-2 of the response (the vendor ID field), read the next selector from
+   byte 12 of the response, stop when it is 0xFF (or the model does not answer, or the fuel runs out).
+   On a validly configured context the walk from selector 0 returns every configured vendor ID set exactly once,
+   in configuration order, and stops: for every context of the history (any remembered selector, any EIDs, any
+   UUID), both overflow modes, every requester, and any fuel that is at least the number of sets *)
+Theorem C14_enumerate : forall ovf g c r, wf_cfg g -> valid_cfg g = true -> cinv g c -> r < 256 ->
+  walk r (S (length (g_vendor_ids g))) ovf c 0 = map enc_vendor_set (g_vendor_ids g).
+Proof. exact enumerate. Qed.
+
+Theorem C14_enumerate_any_fuel : forall ovf g c r fuel, wf_cfg g -> valid_cfg g = true -> cinv g c -> r < 256 ->
+  (length (g_vendor_ids g) <= fuel)%nat ->
+  walk r fuel ovf c 0 = map enc_vendor_set (g_vendor_ids g).
+Proof. exact walk_enumerates. Qed.
+
 (* non-vacuity: two sets (PCI 0x8086, IANA 0xA2B3); selector 0 (answer: next 1, the PCI set), selector 1 (answer:
    next 0xFF, the IANA set), selector 0 again; a Get Endpoint ID request is outside the claim.  Both overflow modes *)
 Example C14_nonvacuous :
@@ -45,5 +68,21 @@ Example C14_nonvacuous :
     = [[6; 0; 1; 0; 0x80; 0x86; 0x12; 0x34; 103; 0; 0]; [6; 0; 255; 1; 0; 0; 0xA2; 0xB3; 0; 7; 44]].
 Proof. vm_compute. repeat split; reflexivity. Qed.
 
+(* non-vacuity of (3): the walk over the two sets above, started on a context that remembers selector 7 and has
+   been assigned EID 0x56, from requester 0x23, in both overflow modes; one unit of fuel too few cuts it short *)
+Example C14_enumerate_nonvacuous :
+  let g := {| g_addr := 0x10; g_msg_types := [0; 5; 0x7E];
+              g_vendor_ids := [{| v_format := 0; v_data := 0x8086; v_numeric := 0x1234 |};
+                               {| v_format := 1; v_data := 0xA2B3; v_numeric := 7 |}] |} in
+  let c := set_selector (set_eid_req (set_eid_resp (ctx_of g) 0x56) 0x56) 7 in
+  vendor_request 0x23 0 = [32; 15; 9; 71; 1; 16; 35; 200; 0; 128; 6; 0; 212] /\
+  walk 0x23 3 true c 0 = [[0; 0x80; 0x86; 0x12; 0x34]; [1; 0; 0; 0xA2; 0xB3; 0; 7]] /\
+  walk 0x23 3 false c 0 = map enc_vendor_set (g_vendor_ids g) /\
+  walk 0x23 1 true c 0 = [[0; 0x80; 0x86; 0x12; 0x34]].
+Proof. vm_compute. repeat split; reflexivity. Qed.
+
 Print Assumptions C14_oracle_holds_on_model.
 Print Assumptions C14_walk.
+Print Assumptions C14_vendor_request_wellformed.
+Print Assumptions C14_enumerate.
+Print Assumptions C14_enumerate_any_fuel.
